@@ -426,4 +426,75 @@ theorem drun_swapEquiv {es₁ es₂ : List Event} (h : SwapEquiv es₁ es₂) :
     obtain ⟨w₃, h3, hs3⟩ := ih2 (StEq.refl w') (uniqNames_of_stEq hs hu) h2
     exact ⟨w₃, h3, hs2.trans hs3⟩
 
+theorem SwapEquiv.cons (e : Event) {a b : List Event} (h : SwapEquiv a b) : SwapEquiv (e :: a) (e :: b) := by
+  induction h with
+  | refl es => exact .refl _
+  | swap pre post e₁ e₂ hi => exact .swap (e :: pre) post e₁ e₂ hi
+  | trans _ _ ih1 ih2 => exact .trans ih1 ih2
+
+theorem SwapEquiv.append_left (pre : List Event) {a b : List Event} (h : SwapEquiv a b) : SwapEquiv (pre ++ a) (pre ++ b) := by
+  induction pre with
+  | nil => exact h
+  | cons e es ih => exact ih.cons e
+
+/-- an event independent of every event of `A` can be moved past `A` -/
+theorem SwapEquiv.move_past (b : Event) : ∀ (A post : List Event), (∀ a ∈ A, Indep a b) →
+    SwapEquiv (b :: (A ++ post)) (A ++ b :: post)
+  | [], post, _ => .refl _
+  | a :: A, post, h =>
+    .trans (.swap [] (A ++ post) b a (h a (by simp)).symm)
+      ((SwapEquiv.move_past b A post (fun x hx => h x (by simp [hx]))).cons a)
+
+/-- `es` is an interleaving of `A` and `B` (each keeps its own order) -/
+inductive Interleaving : List Event → List Event → List Event → Prop
+  | nil : Interleaving [] [] []
+  | left {a : Event} {A B es : List Event} : Interleaving A B es → Interleaving (a :: A) B (a :: es)
+  | right {b : Event} {A B es : List Event} : Interleaving A B es → Interleaving A (b :: B) (b :: es)
+
+/-- every interleaving of two mutually independent event sequences is swap-equivalent to running one after the other -/
+theorem Interleaving.swapEquiv {A B es : List Event} (h : Interleaving A B es) (hi : ∀ a ∈ A, ∀ b ∈ B, Indep a b) :
+    SwapEquiv es (A ++ B) := by
+  induction h with
+  | nil => exact .refl _
+  | left _ ih => exact (ih (fun a ha b hb => hi a (by simp [ha]) b hb)).cons _
+  | @right b A B es _ ih =>
+    refine .trans ((ih (fun a ha b' hb => hi a ha b' (by simp [hb]))).cons b) ?_
+    exact SwapEquiv.move_past b A B (fun a ha => hi a ha b (by simp))
+
+/-! ### the independence condition spelled out -/
+
+/-- **`footIndep` in words**: the two (suite, field) pairs are different, and neither is the creation of a suite lying on
+    the other's path. -/
+theorem footIndep_iff : ∀ (p : Path) (a : Field) (q : Path) (b : Field),
+    footIndep p a q b ↔ (p, a) ≠ (q, b) ∧ (∀ n, a = .child n → ¬ (p ++ [n]) <+: q) ∧ (∀ m, b = .child m → ¬ (q ++ [m]) <+: p)
+  | [], a, [], b => by
+    simp only [footIndep, ne_eq, Prod.mk.injEq, true_and, List.nil_append, List.prefix_nil, reduceCtorEq, not_false_eq_true,
+      implies_true, and_true]
+  | [], a, m :: r, b => by
+    simp only [footIndep, ne_eq, Prod.mk.injEq, reduceCtorEq, false_and, not_false_eq_true, true_and, List.nil_append,
+      List.cons_append, List.prefix_nil, implies_true, and_true, List.cons_prefix_cons, List.nil_prefix]
+    constructor
+    · rintro h n rfl rfl; exact h rfl
+    · rintro h rfl; exact h m rfl rfl
+  | n :: r, a, [], b => by
+    simp only [footIndep, ne_eq, Prod.mk.injEq, reduceCtorEq, false_and, not_false_eq_true, true_and, List.nil_append,
+      List.cons_append, List.prefix_nil, implies_true, List.cons_prefix_cons, List.nil_prefix, and_true]
+    constructor
+    · rintro h m rfl rfl; exact h rfl
+    · rintro h rfl; exact h n rfl rfl
+  | n :: r₁, a, m :: r₂, b => by
+    simp only [footIndep, footIndep_iff r₁ a r₂ b, ne_eq, Prod.mk.injEq, List.cons.injEq, List.cons_append,
+      List.cons_prefix_cons, not_and]
+    by_cases hnm : n = m
+    · subst hnm; simp
+    · simp [hnm, Ne.symm hnm]
+
+theorem Indep.of_feet {e₁ e₂ : Event} {p q : Path} {a b : Field} (h1 : evFoot e₁ = some (p, a)) (h2 : evFoot e₂ = some (q, b))
+    (hf : footIndep p a q b) (ht : ∀ t₁ t₂, evTid e₁ = some t₁ → evTid e₂ = some t₂ → t₁ ≠ t₂) : Indep e₁ e₂ := by
+  unfold Indep
+  simp only [h1, h2]
+  refine ⟨hf, ?_⟩
+  cases ht1 : evTid e₁ <;> cases ht2 : evTid e₂ <;> simp only
+  exact ht _ _ ht1 ht2
+
 end LccModel.Writer
